@@ -686,6 +686,44 @@ static Instance sweep_inst(const std::string &name, size_t skew, bool thorough, 
 #else
 #define IN3(x)
 #endif
+// Many partial slabs of one class at the same time: NS slabs are filled, one block of each is freed in every possible
+// order (the partial-slab tree sees every insertion order), then the class is refilled (the lowest partial slab fills up
+// and leaves the tree each time) and emptied again.  All NS! orders.
+template<class Cfg>
+static Instance many_partial_inst(const std::string &name, int NS) {
+	Instance inst; inst.name = name;
+	inst.run = [=](const std::vector<CrashInfo> &cr) {
+		Enumerator E(name, "C01", cr);
+		SlabHarness<Cfg> h(1 << 20, 0, 0, {});
+		h.res = &E.res;
+		size_t cls = h.max_small, per = h.per_slab[cls];
+		std::vector<int> perm(NS); for(int i = 0; i < NS; i++) perm[i] = i;
+		do {
+			std::string key; for(int x : perm) key += char('0' + x);
+			E.eval("free order " + key, "slab.many-partial-slabs", [&] {
+				h.reset();
+				for(size_t i = 0; i < (size_t)NS * per; i++) h.do_alloc(cls, false, -1);
+				h.check_state();
+				// slabs in address order
+				std::vector<uintptr_t> bases;
+				for(auto &b : h.live) { auto *rg = h.region_of(b.p, 1); if(rg && std::find(bases.begin(), bases.end(), rg->base) == bases.end()) bases.push_back(rg->base); }
+				std::sort(bases.begin(), bases.end());
+				if((int)bases.size() != NS) throw Violation{"C02", "slab:footprint:many-partial", std::to_string(bases.size()) + " slabs mapped for " + std::to_string(NS) + " slabs worth of blocks"};
+				for(int k = 0; k < NS; k++) {
+					uint32_t idx = 0; for(; idx < h.live.size(); idx++) { auto *rg = h.region_of(h.live[idx].p, 1); if(rg && rg->base == bases[perm[k]]) break; }
+					h.do_free(idx, k & 1); h.check_state();
+				}
+				for(int k = 0; k < NS; k++) { h.do_alloc(cls, false, -1); h.check_state(); }
+				while(!h.live.empty()) h.do_free((uint32_t)h.live.size() - 1, false);
+				h.check_state();
+			});
+		} while(std::next_permutation(perm.begin(), perm.end()) && !E.stop);
+		return E.finish();
+	};
+	inst.replay = [](const std::string &) { return 3; };
+	return inst;
+}
+
 static const int FIX_DEPTH = 1 << 30;
 static std::vector<Instance> instances(const std::string &tier) {
 	bool th = tier == "thorough";
@@ -763,6 +801,7 @@ static std::vector<Instance> instances(const std::string &tier) {
 		IN2(v.push_back(slab_inst<CfgSplit>("split-fix-16-300-513-L2" + sfx, 2, 0, F, {16, 300, 513}, FIX));)
 		IN2(v.push_back(slab_inst<CfgOdd>("odd-fix-8-8192-8193-L2" + sfx, 2, 0, F, {8, 8192, 8193}, FIX));)
 	}
+	if(!c04) { IN0(v.push_back(many_partial_inst<CfgTinyA>("tinyA-six-partial-slabs-all-free-orders", 6));) if(th) { IN0(v.push_back(many_partial_inst<CfgTinyA>("tinyA-seven-partial-slabs-all-free-orders", 7));) } }
 	// the same calls through frg::slab_allocator
 	IN0(v.push_back(slab_inst<CfgTinyA>("tinyA-L3-through-slab_allocator" + sfx, 3, 0, F, {0, 9, 1024, 1025}, th ? 5 : 4, false, true));)
 	// depth-capped runs over the full size alphabets
